@@ -101,6 +101,16 @@ class Lst(AV):
         return f'<list#{self.oid}>'
 
 
+class DictVal(AV):
+    __slots__ = ('items',)
+
+    def __init__(self, items: Optional[Dict[Any, AV]] = None):
+        self.items = dict(items or {})
+
+    def __repr__(self):
+        return f'Dict{self.items!r}'
+
+
 class ClassRef(AV):
     __slots__ = ('ci',)
 
@@ -774,6 +784,8 @@ class Evaluator:
                 return v
             if attr == '__class__':
                 return ClassRef(base.cls)
+            if attr == '__dict__' and 'inst_dict' in self.hooks:
+                return self.hooks['inst_dict'](self, base, st)
             raise Undecided(f'attribute {attr} of {base.cls.name} instance not set')
         if isinstance(base, ClassRef):
             hook = self.hooks.get(f'classattr:{base.ci.name}.{attr}')
@@ -824,6 +836,8 @@ class Evaluator:
             if base.mod == 'builtins' and base.attr == 'object' and attr == '__repr__':
                 return ExtRef('object', '__repr__')
             return ExtRef(base.mod, f'{base.attr}.{attr}')
+        if isinstance(base, DictVal):
+            return FuncRef(None, self_val=base, lam=('dictmethod', attr))
         if isinstance(base, Lst):
             return FuncRef(None, self_val=base, lam=('listmethod', attr))
         if isinstance(base, Const) and isinstance(base.value, str):
@@ -997,6 +1011,12 @@ class Evaluator:
                 items.extend(its)
                 return NONE
             raise Undecided(f'list.{name}')
+        if kind == 'dictmethod':
+            if name == 'values' and not args:
+                return Tup(list(base.items.values()))
+            if name == 'keys' and not args:
+                return Tup([Const(k) for k in base.items])
+            raise Undecided(f'dict.{name}')
         if kind == 'strmethod':
             if name in ('lower', 'upper', 'strip') and not args:
                 return Const(getattr(base.value, name)())
